@@ -181,6 +181,15 @@ def run(ctx):
     sets = {"A": A, "B": B}
     if thorough:
         sets["C"] = C
+    # A2: set A with one hex digit of an explicit tag and one letter of a field name changed: most generated files keep their length, some change content
+    moddir = os.path.join(ctx.work, "mod")
+    os.makedirs(moddir, exist_ok=True)
+    txt = open(os.path.join(ctx.scratch, A[0])).read()
+    txt2 = txt.replace("cases.testVector#4975695c", "cases.testVector#4975695d", 1).replace("benchmarks.vruhash#d31bd0fd low:long high:long", "benchmarks.vruhash#d31bd0fe low:long hish:long", 1)
+    if txt2 == txt:
+        raise core.CheckBroken("cases.tl no longer has the combinators the same-length edit is made on")
+    open(os.path.join(moddir, "cases.tl"), "w").write(txt2)
+    sets["A2"] = [os.path.join(moddir, "cases.tl")]
     refs = {}
     for nm, sc in sets.items():
         d = os.path.join(base, "ref%s" % nm, "out")
@@ -189,7 +198,7 @@ def run(ctx):
         ctx.need(r, "reference generation of set " + nm)
         refs[nm] = {k: v[0] for k, v in snap(d).items()}
     histories = [["A", "A", "B", "A"], ["B", "A", "foreign", "B"], ["A", "nomarker", "A"], ["A", "markerdir"], ["emptydirs", "A", "A"], ["file"], ["A", "nestedforeign", "A"],
-                 ["A", "symlink", "A"]]
+                 ["A", "symlink", "A"], ["A", "A2", "A", "A2"]]
     if thorough:
         histories += [["A", "B", "C", "A", "C", "B"], ["C", "foreign", "nomarker", "C"], ["B", "B", "B"], ["A", "split", "A"], ["emptydirs", "B", "foreign", "A"]]
     for hi, hist in enumerate(histories):
